@@ -168,6 +168,9 @@ func runC36(c *eng.Ctx) {
 		pn.AllPaths("R2", st, stmt("p.tempExemplarCount = 0"), eng.AnyExit)
 		pn.AllPaths("R2", st, stmt("p.tempST = 0"), eng.AnyExit)
 	}
+	// a conversion attempt always ends the collection: whatever Convert or Validate say, the state is decided and the temporary histogram cleared
+	pn.AllPaths("R2", callText("p.tempNHCB.Convert()"), p.Store(state), eng.AnyExit)
+	pn.AllPaths("R2", callText("p.tempNHCB.Convert()"), callText("p.tempNHCB.Reset()"), eng.AnyExit)
 	pn.NoPath("R2", callText("p.tempNHCB.Reset()"), callText("p.tempNHCB.Convert()"))
 	pn.NoPath("R2", stmt("p.tempExemplarCount = 0"), p.Call(N+".swapExemplars"))
 	c.AssignsAllFields("R2", "util/convertnhcb:TempHistogram.Reset", "util/convertnhcb:TempHistogram", nil)
@@ -258,6 +261,18 @@ func runC36(c *eng.Ctx) {
 			return (r == "exemplar.Exemplar{}" && strings.HasPrefix(eng.ExprString(as.Lhs[0]), "*")) || (r == "exemplar.Exemplar{}" && strings.HasPrefix(eng.ExprString(as.Lhs[0]), "p.tempExemplars[")) || r == "append(p.tempExemplars, exemplar.Exemplar{})"
 		})
 		ne.DomOK("R6", zero)
+		// tempExemplarCount counts the filled slots at the front of tempExemplars and nextExemplarPtr extends the slice
+		// by at most one beyond it: the two are reset together
+		resetCount := stmt("p.tempExemplarCount = 0")
+		pn.Has("R6", resetCount, 1)
+		pn.Only("R6", resetCount, "is paired with the truncation of tempExemplars in the same block", func(l eng.Loc) bool {
+			for _, t := range pn.Find(stmt("p.tempExemplars = p.tempExemplars[:0]")) {
+				if t.Blk == l.Blk {
+					return true
+				}
+			}
+			return false
+		})
 		// a kept classic series is returned to the caller after its exemplars were taken from the wrapped parser:
 		// Exemplar() must serve them from what was stored
 		ex := c.Fn(N + ".Exemplar")
